@@ -336,6 +336,6 @@ pub fn property() -> Property {
             "a replica that has collected the anchor may answer None (counted)".into(),
             "Assoc::After at the very end of a collection is documented to be not creatable through sticky_index (from_type covers it)".into(),
         ],
-        parts: vec![Box::new(Part(Sticky))],
+        parts: vec![Box::new(Part(Sticky)), Box::new(Part(crate::props::c14b::NestedEnds))],
     }
 }
